@@ -7,8 +7,11 @@ def prof(name, quick, thorough, **kw):
 
 L1_TRUST = ['L1 model (coq/theories/L1/Model.v): control skeleton hand-written, tied by translator facts and the correspondence replay']
 
+CORR_L1 = {'profiles': [prof('corpus', (0, 6), (0, 40)), prof('core', (40, 5), (600, 10)), prof('sync', (30, 5), (400, 10)), prof('try', (30, 5), (400, 10)), prof('pool', (40, 5), (400, 10))]}
+
 PROPS = {
     'C01': {
+        'correspondence': CORR_L1,
         'coq': ['theories/Props/C01.vo', 'theories/Inst/C01_now.vo'],
         'profiles': [prof('core', (60, 15), (1500, 60)), prof('sync', (40, 15), (800, 60))],
         'monitors': ['C01'], 'liveness': False, 'panics': False,
@@ -16,6 +19,7 @@ PROPS = {
         'assumptions': ['future-based operations are covered by the run-time occupancy monitor only, not yet by a theorem'],
     },
     'C03': {
+        'correspondence': CORR_L1,
         'coq': ['theories/Props/C03.vo', 'theories/Inst/C03_now.vo'],
         'profiles': [prof('pool', (80, 20), (2000, 80)), prof('core', (40, 10), (1000, 40), extra=['--min-pool', '1'])],
         'monitors': ['C03'], 'liveness': True, 'panics': False,
@@ -23,6 +27,7 @@ PROPS = {
         'assumptions': ['L-quiet excludes stranding and deadlock; livelock is excluded only by the step bound of the controlled runtime'],
     },
     'C09': {
+        'correspondence': CORR_L1,
         'coq': ['theories/Props/C09.vo', 'theories/Inst/C09_now.vo'],
         'profiles': [prof('try', (80, 20), (2000, 80))],
         'monitors': ['C09'], 'liveness': True, 'panics': False,
@@ -30,6 +35,7 @@ PROPS = {
         'assumptions': [],
     },
     'C17': {
+        'correspondence': CORR_L1,
         'coq': ['theories/Props/C17.vo', 'theories/Inst/C17_now.vo'],
         'profiles': [prof('pool', (60, 15), (1500, 60))],
         'monitors': ['C17'], 'liveness': False, 'panics': False,
